@@ -12,8 +12,8 @@
 (*         Token of the packet), bf ("absent" | "own" | "third" | "victim": client-id fields     *)
 (*         inside the JSON body), cid ("fresh" | "reused": the command id another client's command *)
 (*         of this type just carried), flt ("none" | "read1": one failed storage read of the     *)
-(*         named object's record during the command), wv (state of the named objects: base / expired / revoked /     *)
-(*         inactive), objt (target client the named mapping designates, else "none"), obj, hc, out ("ok": a success response, "fail": a failure      *)
+(*         named object's record during the command; "read2": the second read; "readAll": every read),        *)
+(*         wv (state / history of the named objects: base / expired / revoked / inactive / migrated / migratedT), objt (target client the named mapping designates, else "none"), obj, hc, out ("ok": a success response, "fail": a failure      *)
 (*         response or an error from the dispatcher, "none": nothing came back),               *)
 (*         objp / objo (parties and listen-client / owner of the named object before the       *)
 (*         command; empty / "none" when there is none),                                         *)
@@ -54,7 +54,11 @@ Judge(e) ==
       dels  == ToSet(e.deliv)
       objp  == ToSet(e.objp)
       others == {p \in dels : p.to # X}
-      D(w)  == e.ty \o ":" \o w
+      \* the detail names the input class: row, what happened, and - when not the plain case - the storage fault
+      \* injected during the command and the history the world started from
+      sfx   == (IF "flt" \in DOMAIN e /\ e.flt # "none" THEN ":flt=" \o e.flt ELSE "")
+               \o (IF "wv" \in DOMAIN e /\ e.wv # "base" THEN ":wv=" \o e.wv ELSE "")
+      D(w)  == e.ty \o ":" \o w \o sfx
       \* ---- refused on unauthenticated connections: not accepted, nothing returned / changed / delivered
       vU == IF need /\ X = None
             THEN If(e.out = "ok", V("Unauth", D("accepted"))) \cup If(rets # {}, V("Unauth", D("returned")))
